@@ -49,6 +49,8 @@ pub struct ItemDir {
     pub path: Vec<String>,
     pub nth: usize,
     pub keep_derive: Vec<String>,
+    /// `//@item <file> :: struct X make-pub`: R10 extended to a struct with inherited (private) visibility
+    pub make_pub: bool,
     pub fnd: Option<FnDirective>,
 }
 
@@ -294,6 +296,12 @@ pub fn parse_template(tpl: &str) -> Unit {
                 // <file> :: seg :: seg [derive(A,B)]
                 let mut rest = rest.to_string();
                 let mut keep = vec!["Copy".to_string(), "Clone".to_string()];
+                let mut make_pub = false;
+                if rest.trim_end().ends_with(" make-pub") {
+                    make_pub = true;
+                    let n = rest.trim_end().len() - " make-pub".len();
+                    rest.truncate(n);
+                }
                 if let Some(p) = rest.find(" derive(") {
                     let inner = rest[p + 8..].trim_end().trim_end_matches(')').to_string();
                     keep = inner.split(',').map(|x| x.trim().to_string()).filter(|x| !x.is_empty()).collect();
@@ -312,7 +320,7 @@ pub fn parse_template(tpl: &str) -> Unit {
                     let nm = parts.last().unwrap()[3..].to_string();
                     fnd = Some(parse_fn_block(&nm, &blk));
                 }
-                unit.segments.push(Segment::Item(ItemDir { file: parts[0].clone(), path: parts[1..].to_vec(), nth, keep_derive: keep, fnd }));
+                unit.segments.push(Segment::Item(ItemDir { file: parts[0].clone(), path: parts[1..].to_vec(), nth, keep_derive: keep, make_pub, fnd }));
             }
             "impl" => {
                 unit.segments.push(Segment::Text(std::mem::take(&mut text)));
